@@ -331,52 +331,51 @@ impl<'a, 'b> SchemerContext<'a, 'b> {
                     acc.insert(Runtype::const_(RuntypeConst::Bool(*v)));
                 }
                 ProperSubtype::Number { allowed, values } => {
-                    for h in values {
-                        match h {
+                    let items: Vec<Runtype> = values
+                        .iter()
+                        .map(|h| match h {
                             NumberRepresentationOrFormat::Lit(n) => {
-                                acc.insert(maybe_not(
-                                    Runtype::const_(RuntypeConst::Number(n.clone())),
-                                    !allowed,
-                                ));
+                                Runtype::const_(RuntypeConst::Number(n.clone()))
                             }
                             NumberRepresentationOrFormat::Format(CustomFormat(first, rest)) => {
-                                acc.insert(maybe_not(
-                                    Runtype::number_with_format(CustomFormat(
-                                        first.clone(),
-                                        rest.clone(),
-                                    )),
-                                    !allowed,
-                                ));
+                                Runtype::number_with_format(CustomFormat(
+                                    first.clone(),
+                                    rest.clone(),
+                                ))
                             }
-                        }
+                        })
+                        .collect();
+                    if *allowed {
+                        acc.extend(items);
+                    } else {
+                        // every number except these: an intersection with their complements,
+                        // not a union of the complements
+                        acc.insert(all_except(Runtype::number(), items));
                     }
                 }
                 ProperSubtype::String { allowed, values } => {
-                    for h in values {
-                        match h {
+                    let items: Vec<Runtype> = values
+                        .iter()
+                        .map(|h| match h {
                             StringLitOrFormat::Format(CustomFormat(first, rest)) => {
-                                acc.insert(maybe_not(
-                                    Runtype::string_with_format(CustomFormat(
-                                        first.clone(),
-                                        rest.clone(),
-                                    )),
-                                    !allowed,
-                                ));
+                                Runtype::string_with_format(CustomFormat(
+                                    first.clone(),
+                                    rest.clone(),
+                                ))
                             }
-                            StringLitOrFormat::Tpl(items) => {
-                                //
-                                match items.0.first() {
-                                    Some(TplLitTypeItem::StringConst(c)) => acc.insert(maybe_not(
-                                        Runtype::single_string_const(c),
-                                        !allowed,
-                                    )),
-                                    _ => acc.insert(maybe_not(
-                                        Runtype::tpl_lit_type(items.clone()),
-                                        !allowed,
-                                    )),
-                                };
-                            }
-                        }
+                            StringLitOrFormat::Tpl(items) => match items.0.first() {
+                                Some(TplLitTypeItem::StringConst(c)) => {
+                                    Runtype::single_string_const(c)
+                                }
+                                _ => Runtype::tpl_lit_type(items.clone()),
+                            },
+                        })
+                        .collect();
+                    if *allowed {
+                        acc.extend(items);
+                    } else {
+                        // every string except these (e.g. Exclude<string, "a" | "b">)
+                        acc.insert(all_except(Runtype::string(), items));
                     }
                 }
                 ProperSubtype::Mapping(bdd) => {
@@ -481,6 +480,11 @@ pub fn semtype_to_runtypes(
         vs,
         head_is_recursive,
     ))
+}
+fn all_except(base: Runtype, excluded: Vec<Runtype>) -> Runtype {
+    let mut parts = vec![base];
+    parts.extend(excluded.into_iter().map(|it| Runtype::st_not(Box::new(it))));
+    Runtype::all_of(parts)
 }
 fn maybe_not(it: Runtype, add_not: bool) -> Runtype {
     if add_not {
